@@ -14,7 +14,7 @@ ENGINE = {"grid": "grid", "tree": "tree", "bfs": "bfs"}
 META = {
     "C01": dict(claimed=True, engine="grid", design="4/C01",
                 technique="bounded-exhaustive enumeration of all (spot, position, payoff) sequences over dyadic alphabets against an exact integer/rational reference model; all price paths through the real Hedger",
-                text="Every assignment of spot/position symbols to every (instrument, step) cell for shapes up to (H,T)=(3,2),(2,3) (thorough: (3,3),(2,4),(1,8)), times cost vectors, first-cost flag, payoff, dtype and both entry points, is run through the real pl() and compared bitwise with an exact-arithmetic model of the wealth identity; Hedger.compute_pl/compute_portfolio are run on all |A|^T scripted price paths for six hedge lists (incl. listed derivatives), five models and six derivative types and compared with the rational-arithmetic identity. Complete for the stated alphabets, silent about values outside them (locality argument in DESIGN.md section 1).",
+                text="Every assignment of spot/position symbols to every (instrument, step) cell for shapes up to (H,T)=(3,2),(2,3) (thorough: (3,3),(2,4),(1,8)), times cost vectors, first-cost flag, payoff, dtype and both entry points, is run through the real pl() and compared bitwise with an exact-arithmetic model of the wealth identity (price alphabets with positive symbols, with a negative symbol, and with a quote of exactly zero at the first, an inner and the last step; a non-finite result is a violation); Hedger.compute_pl/compute_portfolio are run on all |A|^T scripted price paths for six hedge lists (incl. listed derivatives), five models and six derivative types and compared with the rational-arithmetic identity. Complete for the stated alphabets, silent about values outside them (locality argument in DESIGN.md section 1).",
                 note="Trusted: torch elementwise arithmetic is exact on the dyadic alphabets; the identity is linear/abs-valued per cell so index, sign and flag errors show on 2-3 symbol alphabets. Non-dyadic real values are not enumerated."),
 }
 
